@@ -24,44 +24,46 @@ Record flat_struct (s : struct) : Prop := {
   fs_concrete : s_disp s <> SdAbstract;
   fs_names : NoDup (map f_name (struct_fields_nc s));
   fs_no_size_member : forall f, In f (struct_fields_nc s) -> f_name f <> "size";
-  fs_ordered : forall R, ordered tm R s (struct_fields_nc s) [] (struct_fields_nc s);
+  fs_ordered : ordered tm (struct_fields_nc s) [] (struct_fields_nc s);
   fs_fixed : exists f i, In f (struct_fields_nc s) /\ 0 < it_size i /\
              (classify tm (struct_fields_nc s) f = Some (MkInt i) \/ exists n, classify tm (struct_fields_nc s) f = Some (MkReserved i n))
 }.
 
-(* admissible values, by nesting depth *)
-Fixpoint adm (k : nat) (t : string) (v : value) : Prop :=
-  match k with
-  | O => False
-  | S k' =>
-    match v with
-    | VInt z =>
-      match lookup tm t with
-      | Some (DAlias _ (LInt i) _) => 0 < it_size i /\ it_unsigned i = true
-      | Some (DEnum _ b vs at_ _) => 0 < it_size b /\ enum_valid vs (is_bitwise at_) z = true
-      | _ => False
-      end
-    | VBytes b =>
-      match lookup tm t with
-      | Some (DAlias _ (LBuffer n) _) => 0 < n /\ Z.of_nat (length b) = n
-      | _ => False
-      end
-    | VStruct cls vs =>
+(* admissible values, by struct nesting depth *)
+Fixpoint adm (n : nat) (t : string) (v : value) : Prop :=
+  match v with
+  | VInt z =>
+    match lookup tm t with
+    | Some (DAlias _ (LInt i) _) => 0 < it_size i /\ it_unsigned i = true
+    | Some (DEnum _ b vs at_ _) => 0 < it_size b /\ enum_valid vs (is_bitwise at_) z = true
+    | _ => False
+    end
+  | VBytes b =>
+    match lookup tm t with
+    | Some (DAlias _ (LBuffer n) _) => 0 < n /\ Z.of_nat (length b) = n
+    | _ => False
+    end
+  | VStruct cls vs =>
+    match n with
+    | O => False
+    | S n' =>
       t = cls /\
       match lookup_struct tm cls with
       | Some s =>
         s_name s = cls /\ flat_struct s /\ map fst vs = map f_name (settable_fields s) /\
-        forall f, In f (struct_fields_nc s) -> member_typed tm (struct_fields_nc s) (adm k') v f
+        forall f, In f (struct_fields_nc s) -> member_typed tm (struct_fields_nc s) (adm n') v f
       | None => False
       end
-    | _ => False
     end
+  | _ => False
   end.
 
 Lemma own_fields_no_base s : s_factory_type s = None -> own_fields tm s = struct_fields_nc s.
 Proof.
-  intros H. unfold own_fields, struct_fields_nc. induction (non_const (s_fields s)) as [|f r IH]; [reflexivity|].
-  cbn [filter]. unfold is_inherited, base_struct. rewrite H. cbn. now rewrite <- IH at 2.
+  intros H. unfold own_fields, struct_fields_nc.
+  assert (G : forall l, filter (fun f => negb (is_inherited tm s f)) l = l).
+  { induction l as [|f r IH]; [reflexivity|]. cbn [filter]. unfold is_inherited at 1, base_struct. rewrite H. cbn [negb]. now rewrite IH. }
+  apply G.
 Qed.
 
 Lemma base_none s : s_factory_type s = None -> base_struct tm s = None.
@@ -108,19 +110,92 @@ Proof.
     destruct (negb (is_variable_size tm a) && negb (a_byte_constrained a) && (alignment_of a =? 0)); [|discriminate]. now injection Hk as <-.
 Qed.
 
-(* the round trip, level by level *)
-Definition RT (k : nat) : Prop := forall t v b rest, adm k t v -> enc OP tm k t v = Ok b ->
+Lemma nodup_map_filter {A B} (f : A -> B) (p : A -> bool) l : NoDup (map f l) -> NoDup (map f (filter p l)).
+Proof.
+  induction l as [|x l IH]; intros H; [constructor|]. cbn [map] in H. inversion H as [|? ? Hnin Hnd]; subst. cbn [filter].
+  destruct (p x); [|now apply IH]. cbn [map]. constructor; [|now apply IH].
+  intros Hin. apply Hnin. apply in_map_iff in Hin as (y & Hy & Hyin). apply filter_In in Hyin as [Hyin _]. rewrite <- Hy. now apply in_map.
+Qed.
+
+Lemma settable_names_nodup s : NoDup (map f_name (struct_fields_nc s)) -> NoDup (map f_name (settable_fields s)).
+Proof.
+  intros H. unfold settable_fields. fold (struct_fields_nc s).
+  pose proof (nodup_map_filter f_name (is_settable (struct_fields_nc s)) (struct_fields_nc s) H) as Hf.
+  destruct (filter _ _) as [|g r]; [constructor|]. cbn [drop_first_size]. destruct (String.eqb (f_name g) "size"); [|exact Hf].
+  cbn [map] in Hf. now inversion Hf.
+Qed.
+
+Lemma eget_as_find e n : eget e n = option_map snd (find (fun p => String.eqb (fst p) n) e).
+Proof. unfold eget. destruct (find _ e); reflexivity. Qed.
+
+Lemma vget_as_find cls vs n : vget (VStruct cls vs) n = option_map snd (find (fun p => String.eqb (fst p) n) vs).
+Proof. unfold vget. destruct (find _ vs); reflexivity. Qed.
+
+Lemma typed_settable_present s (adm_t : string -> value -> Prop) self f :
+  In f (settable_fields s) -> member_typed tm (struct_fields_nc s) adm_t self f -> exists v, vget self (f_name f) = Some v.
+Proof.
+  intros Hin Hty. pose proof (settable_entry s self adm_t f Hin Hty) as He.
+  unfold member_typed in Hty. unfold env_entry in He. destruct (classify tm (struct_fields_nc s) f) as [[i|i n|i g|t|n|a n]|] eqn:Hk; try contradiction.
+  - destruct Hty as [z Hz]. eauto.
+  - (* reserved members are not settable: env_entry = Some n but vget ... ; derive from He *) rewrite <- He. eauto.
+  - destruct Hty as [[b Hb]|[l Hl]]; [rewrite Hb in He | rewrite Hl in He]; rewrite <- He; eauto.
+  - destruct Hty as (v & Hv & _). eauto.
+  - destruct Hty as [b Hb]. eauto.
+  - destruct Hty as (l & Hl & _). eauto.
+Qed.
+
+(* one-step unfoldings of the mutually recursive interpreter (stated once so that proofs never unfold the fixpoint bodies) *)
+Lemma enc_struct_value k t cls vs :
+  enc OP tm (S k) t (VStruct cls vs) =
+  match lookup_struct tm cls with Some s => enc_struct OP tm k s (VStruct cls vs) | None => Crash "AttributeError" end.
+Proof. reflexivity. Qed.
+
+Lemma enc_struct_S k s v :
+  enc_struct OP tm (S k) s v =
+  bind (size_struct OP tm k s v) (fun total =>
+  match base_struct tm s with
+  | Some b =>
+    bind (serialize_fields_go OP tm (Rk k) b (struct_fields_nc s) total v true (struct_fields_nc b)) (fun hb =>
+    bind (serialize_fields_go OP tm (Rk k) s (struct_fields_nc s) total v true (own_fields tm s)) (fun ob => Ok (hb ++ ob)))
+  | None => serialize_fields_go OP tm (Rk k) s (struct_fields_nc s) total v true (own_fields tm s)
+  end).
+Proof. reflexivity. Qed.
+
+Lemma size_struct_value k t cls vs :
+  size OP tm (S k) t (VStruct cls vs) =
+  match lookup_struct tm cls with Some s => size_struct OP tm k s (VStruct cls vs) | None => Crash "AttributeError" end.
+Proof. reflexivity. Qed.
+
+Lemma size_struct_S k s v :
+  size_struct OP tm (S k) s v =
+  match base_struct tm s with
+  | Some b =>
+    bind (size_fields OP tm (Rk k) (struct_fields_nc s) v (struct_fields_nc b)) (fun hs =>
+    bind (size_fields OP tm (Rk k) (struct_fields_nc s) v (own_fields tm s)) (fun os => Ok (hs + os)))
+  | None => size_fields OP tm (Rk k) (struct_fields_nc s) v (own_fields tm s)
+  end.
+Proof. reflexivity. Qed.
+
+Lemma dec_struct_type k t s buf : lookup tm t = Some (DStruct s) -> dec OP tm (S k) t buf = dec_struct OP tm k s buf.
+Proof. intros H. cbn [dec]. now rewrite H. Qed.
+
+Lemma dec_struct_S_no_base k s buf : s_disp s <> SdAbstract -> base_struct tm s = None ->
+  dec_struct OP tm (S k) s buf =
+  bind (deserialize_loop OP tm (Rk k) s (struct_fields_nc s) (own_fields tm s) [] [] [] [] buf) (fun r =>
+  Ok (VStruct (s_name s) (collect s (fst r)))).
+Proof. intros Hd Hb. cbn [dec_struct]. rewrite Hb. destruct (s_disp s); try reflexivity. contradiction. Qed.
+
+(* the round trip: at nesting depth n every fuel >= 2n + 1 suffices *)
+Definition RT (n : nat) : Prop := forall k, (2 * n + 1 <= k)%nat -> forall t v b rest, adm n t v -> enc OP tm k t v = Ok b ->
   dec OP tm k t (b ++ rest) = Ok v /\ size OP tm k t v = Ok (Z.of_nat (length b)) /\ (0 < length b)%nat.
 
-Lemma RT_0 : RT 0.
-Proof. intros t v b rest []. Qed.
-
-Lemma RT_S k : RT k -> RT (S k).
+Lemma RT_leaf k t v b rest : (1 <= k)%nat -> match v with VInt _ | VBytes _ => True | _ => False end ->
+  adm 0 t v -> enc OP tm k t v = Ok b ->
+  dec OP tm k t (b ++ rest) = Ok v /\ size OP tm k t v = Ok (Z.of_nat (length b)) /\ (0 < length b)%nat.
 Proof.
-  intros IH t v b rest Hadm Henc. destruct v as [z|bs|l|cls vs|]; cbn [adm] in Hadm; try contradiction.
-  - (* alias int / enum *)
-    cbn [enc] in Henc. cbn [dec size].
-    destruct (lookup tm t) as [[n [i|bn] c|n bi vs at_ c|s]|] eqn:Hl; try contradiction.
+  intros Hk Hleaf Hadm Henc. destruct k as [|k]; [lia|].
+  destruct v as [z|bs| | |]; try contradiction; cbn [adm] in Hadm; cbn [enc] in Henc; cbn [dec size].
+  - destruct (lookup tm t) as [[n [i|bn] c|n bi vs at_ c|s]|] eqn:Hl; try contradiction.
     + destruct Hadm as [Hpos Hu]. rewrite Hu in *. cbn [negb] in *.
       destruct (py_int_roundtrip _ _ _ _ rest Henc) as [Hx Hlen]. rewrite Hx.
       assert (Hr : int_in_range (Z.to_nat (it_size i)) false z = true) by (unfold py_to_bytes in Henc; destruct (int_in_range _ _ _); [reflexivity|discriminate]).
@@ -129,26 +204,69 @@ Proof.
       rewrite base_value_bad_spec by lia. rewrite Hr. cbn [negb]. repeat split; [f_equal; lia | lia].
     + destruct Hadm as [Hpos Hv].
       destruct (py_int_roundtrip _ _ _ _ rest Henc) as [Hx Hlen]. rewrite Hx, Hv. repeat split; [f_equal; lia | lia].
-  - (* alias buffer *)
-    cbn [enc] in Henc. cbn [dec size].
-    destruct (lookup tm t) as [[n [i|bn] c|n bi vs at_ c|s]|] eqn:Hl; try contradiction.
+  - destruct (lookup tm t) as [[n [i|bn] c|n bi vs at_ c|s]|] eqn:Hl; try contradiction.
     destruct Hadm as [Hpos Hlen]. injection Henc as <-. unfold get_bytes, OP. rewrite get_bytes_bad_now, app_length.
     replace (Z.of_nat (length bs + length rest) <? bn) with false by lia. cbn [bind].
     rewrite <- Hlen, zfirstn_app. repeat split; lia.
-  - (* structs *)
-    destruct Hadm as (-> & Hadm). destruct (lookup_struct tm cls) as [s|] eqn:Hls; [|contradiction].
-    destruct Hadm as (Hname & Hflat & Hvs & Hty). destruct Hflat as [Hlk Hnb Hns Hconc Hnd Hnosz Hord Hfix].
-    cbn [enc] in Henc. rewrite Hls in Henc.
-    destruct k as [|k']; [cbn in Henc; discriminate|].
-    cbn [enc_struct] in Henc. fold (Rk k') in Henc.
-    rewrite (base_none s Hnb), (own_fields_no_base s Hnb) in Henc.
-    destruct (size_struct OP tm k' s (VStruct cls vs)) as [total| |] eqn:Hsz; cbn [bind] in Henc; try discriminate.
-    set (self := VStruct cls vs) in *. set (allfs := struct_fields_nc s) in *.
-    rewrite (ser_fields_first OP tm (Rk k') s allfs Hns) in Henc.
-    (* the codecs one level down round-trip admissible values: weaken RT k to level k' *)
-    assert (Hsub : forall t' v' b' rest', adm k' t' v' -> enc_t (Rk k') t' v' = Ok b' ->
-               dec_t (Rk k') t' (b' ++ rest') = Ok v' /\ size_t (Rk k') t' v' = Ok (Z.of_nat (length b')) /\ (0 < length b')%nat).
-    { admit_placeholder. }
-    admit_placeholder.
-Admitted_placeholder.
+Qed.
+
+Lemma adm_leaf_any n t v : match v with VInt _ | VBytes _ => True | _ => False end -> adm n t v -> adm 0 t v.
+Proof. destruct v; try contradiction; intros _ H; destruct n; exact H. Qed.
+
+Theorem RT_all : forall n, RT n.
+Proof.
+  induction n as [|n IH]; intros k Hk t v b rest Hadm Henc.
+  - destruct v; try (cbn in Hadm; contradiction); (eapply RT_leaf; [lia | exact I | exact Hadm | exact Henc]).
+  - destruct v as [z|bs|l|cls vs|]; try (cbn in Hadm; contradiction).
+    + eapply RT_leaf; [lia | exact I | eapply adm_leaf_any; [exact I | exact Hadm] | exact Henc].
+    + eapply RT_leaf; [lia | exact I | eapply adm_leaf_any; [exact I | exact Hadm] | exact Henc].
+    + (* structs *)
+      cbn [adm] in Hadm. destruct Hadm as (-> & Hadm). destruct (lookup_struct tm cls) as [s|] eqn:Hls; [|contradiction].
+      destruct Hadm as (Hname & Hflat & Hvs & Hty). destruct Hflat as [Hlk Hnb Hns Hconc Hnd Hnosz Hord Hfix].
+      destruct k as [|[|k']]; try lia.
+      rewrite enc_struct_value, Hls, enc_struct_S in Henc.
+      rewrite (base_none s Hnb), (own_fields_no_base s Hnb) in Henc.
+      destruct (size_struct OP tm k' s (VStruct cls vs)) as [total| |] eqn:Hsz; cbn [bind] in Henc; try discriminate.
+      set (self := VStruct cls vs) in *. set (allfs := struct_fields_nc s) in *.
+      rewrite (ser_fields_first OP tm (Rk k') s allfs Hns total self allfs) in Henc.
+      assert (Hsub : forall t' v' b' rest', adm n t' v' -> enc_t (Rk k') t' v' = Ok b' ->
+                 dec_t (Rk k') t' (b' ++ rest') = Ok v' /\ size_t (Rk k') t' v' = Ok (Z.of_nat (length b')) /\ (0 < length b')%nat).
+      { intros t' v' b' rest' Ha He. cbn [Rk enc_t dec_t size_t] in *. apply (IH k' ltac:(lia) t' v' b' rest' Ha He). }
+      destruct (loop_rt OP tm (Rk k') s allfs size_bad_now order_same_now get_bytes_bad_now (adm n) Hsub Hns
+                  allfs [] [] self total b rest [] Hord Hnd (fun f Hf => match Hf with end) Hty Henc) as (e' & Hloop & Henv).
+      pose proof (size_fields_ok OP tm (Rk k') s allfs (adm n) Hsub allfs self total b Hty Henc) as Hsize.
+      (* the decoded members are the value's members *)
+      assert (Hcollect : collect s e' = vs).
+      { unfold collect. transitivity (map (fun n0 => (n0, match find (fun p => String.eqb (fst p) n0) vs with Some p => snd p | None => VNull end)) (map fst vs));
+          [|apply assoc_rebuild; rewrite Hvs; apply settable_names_nodup; exact Hnd].
+        rewrite Hvs, map_map. apply map_ext_in. intros f Hf. f_equal.
+        pose proof (settable_sub s f Hf) as Hf'. pose proof (Hty f Hf') as Htf.
+        pose proof (Henv f ltac:(cbn [app]; exact Hf')) as He. unfold allfs in He. rewrite (settable_entry s self (adm n) f Hf Htf) in He.
+        destruct (typed_settable_present s (adm n) self f Hf Htf) as [v Hv].
+        rewrite eget_as_find in He. unfold self in He, Hv. rewrite vget_as_find in He, Hv.
+        destruct (find (fun p => String.eqb (fst p) (f_name f)) e') as [p|], (find (fun p => String.eqb (fst p) (f_name f)) vs) as [q|]; cbn in He, Hv; congruence. }
+      assert (Hdec : dec OP tm (S (S k')) cls (b ++ rest) = Ok self).
+      { rewrite (dec_struct_type (S k') cls s (b ++ rest)) by (rewrite <- Hname; exact Hlk).
+        rewrite (dec_struct_S_no_base k' s (b ++ rest) Hconc (base_none s Hnb)), (own_fields_no_base s Hnb). fold allfs. rewrite Hloop. cbn [bind fst].
+        now rewrite Hcollect, Hname. }
+      assert (Hsz' : size OP tm (S (S k')) cls self = Ok (Z.of_nat (length b))).
+      { unfold self. rewrite size_struct_value, Hls, size_struct_S, (base_none s Hnb), (own_fields_no_base s Hnb). exact Hsize. }
+      repeat split; [exact Hdec | exact Hsz' |].
+      (* at least one fixed-width member: the encoding is not empty *)
+      destruct Hfix as (f & i & Hin & Hpos & Hkind).
+      apply in_split in Hin as (l1 & l2 & Hl). fold allfs in Hl.
+      assert (Henc2 : serialize_fields_go OP tm (Rk k') s allfs total self false (l1 ++ f :: l2) = Ok b) by (rewrite <- Hl; exact Henc).
+      destruct (member_offset OP tm (Rk k') s allfs total self l1 f l2 b Henc2) as (b1 & bf & b2 & _ & Hf & _ & -> & _).
+      assert (length bf = Z.to_nat (it_size i)).
+      { pose proof (Hty f ltac:(rewrite Hl; apply in_or_app; right; now left)) as Htf. unfold member_typed in Htf.
+        destruct Hkind as [Hkd|[m Hkd]]; fold allfs in Hkd; rewrite Hkd in Htf.
+        - destruct Htf as [z Hz]. pose proof (classify_plain_int tm allfs f i Hkd) as (Hp & Hft).
+          rewrite (LayoutLaws.int_le OP tm (Rk k') s allfs total self f i z Hp Hft Hz) in Hf.
+          exact (proj1 (proj2 (int_le_bytes _ _ _ _ Hf))).
+        - pose proof (classify_reserved tm allfs f i m Hkd) as (Hc & Hb & Hcomp & Hr & Hft & Hfv).
+          rewrite (LayoutLaws.reserved_is_constant OP tm (Rk k') s allfs total self f i m Hc Hb Hcomp Hr Hft Hfv) in Hf.
+          exact (proj1 (proj2 (int_le_bytes _ _ _ _ Hf))). }
+      rewrite !app_length. lia.
+Qed.
+
 End Flat.
